@@ -342,6 +342,7 @@ class Matrix(Qube):
 
         # Check determinant if necessary
         values = self._values_
+        new_mask = self._mask_
         if not nozeros:
             det = np.linalg.det(values)
 
@@ -351,8 +352,6 @@ class Matrix(Qube):
                 values = values.copy()      # never modify the operand's array
                 values[mask] = np.diag(np.ones(self._numer_[0]))
                 new_mask = Qube.or_(self._mask_, mask)
-            else:
-                new_mask = self._mask_
 
         # Invert the array
         with warnings.catch_warnings():
